@@ -5,7 +5,7 @@ code's shape changes, TAE-based checks fail closed instead of reasoning with a s
 import re
 
 from .common import src_fn, where
-from .exprs import closure_of, is_const, is_param, mentions, strip
+from .exprs import bool_function, closure_of, is_const, is_param, mentions, strip
 from .mirlib import Expr, Program, expr_str
 
 
@@ -196,14 +196,24 @@ def check(run, rule):
         bad("Fragment::line_overlap", None, "function not found")
     p = _one(prog, "line::Line::overlaps")
     if p:
-        cp = [t for _, t in prog.calls(p) if Program.callee_name(t).endswith("contains_point")]
-        ex = Expr(prog, p)
-        pts = sorted(str(strip(ex.operand(t["args"][-1]))) for t in cp)
-        seg = [t for _, t in prog.calls(p) if Program.callee_name(t).endswith("Segment::new")]
-        segok = len(seg) == 1 and mentions(ex.operand(seg[0]["args"][0]), lambda z: z[0] == "param" and z[1] == 1 and "start" in z[2]) and \
-            mentions(ex.operand(seg[0]["args"][1]), lambda z: z[0] == "param" and z[1] == 1 and "end" in z[2])
-        ok = len(cp) == 2 and pts == sorted([str(("param", 2, ())), str(("param", 3, ()))]) and segok
-        good("Line::overlaps = segment(start,end) contains a and b", p) if ok else bad("Line::overlaps", p, "contains_point calls on %s, segment ok=%s" % (pts, segok))
+        # decided as a boolean function of the two point tests (helpers in between are inlined): overlaps = on(a) && on(b)
+        def on_segment(c):
+            if c[0] == "call" and c[1].endswith("PointQuery::contains_point") and len(c[2]) == 3:
+                seg, iso, pt = (strip(x) for x in c[2])
+                seg_ok = seg[0] == "call" and seg[1].endswith("Segment::new") and \
+                    mentions(seg[2][0], lambda z: z[0] == "param" and z[1] == 1 and z[2][:1] == ("start",)) and not mentions(seg[2][0], lambda z: z[0] == "param" and z[2][:1] != ("start",)) and \
+                    mentions(seg[2][1], lambda z: z[0] == "param" and z[1] == 1 and z[2][:1] == ("end",)) and not mentions(seg[2][1], lambda z: z[0] == "param" and z[2][:1] != ("end",))
+                iso_ok = iso[0] == "call" and iso[1].endswith("::identity")
+                if seg_ok and iso_ok and pt[0] == "param" and pt[1] in (2, 3) and tuple(f for f in pt[2] if f != "0") == ():
+                    return "on_%s" % ("a" if pt[1] == 2 else "b")
+            return None
+        atoms, table = bool_function(prog, p, on_segment)
+        if atoms is None:
+            bad("Line::overlaps", p, table)
+        elif atoms == ["on_a", "on_b"] and all(v == (k[0] and k[1]) for k, v in table.items()):
+            good("Line::overlaps = segment(start,end) contains a and b", p)
+        else:
+            bad("Line::overlaps", p, "as a function of %s it is %s, expected on_a && on_b" % (atoms, {k: v for k, v in sorted(table.items())}))
     else:
         bad("Line::overlaps", None, "function not found")
     # is
